@@ -204,6 +204,23 @@ def method(ex, base, name, e, st):
             st.heap[base.oid] = rec
             return NONE
         raise Unsupported("CNF." + name)
+    if isinstance(base, ObjRef) and base.kind == "Solver":
+        from pyvc.exec import ModelV
+        rec = st.heap[base.oid]
+        if name == "solve":
+            # True: mu stands for the model found (Sat holds of it); False: no assignment satisfies the clauses
+            if ex.choice(st, rec["sat"]):
+                return True
+            return False
+        if name == "get_model":
+            return ModelV(rec["men"])
+        if name == "add_clause":
+            args, _ = ex.args_of(e, st)
+            rec = dict(rec)
+            rec["sat"] = z3.And(rec["sat"], clause_true(ex, args[0]))
+            st.heap[base.oid] = rec
+            return NONE
+        raise Unsupported("Solver." + name)
     # ---------------------------------------------------------------- collections
     if isinstance(base, Coll):
         args, kwargs = ex.args_of(e, st)
@@ -357,6 +374,17 @@ def clause_true(ex, clause):
         return z3.Or([z3.Select(mu, l.obj) if l.pos else z3.Not(z3.Select(mu, l.obj)) for l in clause.lits]) if clause.lits else z3.BoolVal(False)
     o = ex.ctx.fresh("o", ex.ctx.Obj)
     return z3.Or(z3.Exists([o], z3.And(clause.pos(o), z3.Select(mu, o))), z3.Exists([o], z3.And(clause.neg(o), z3.Not(z3.Select(mu, o)))))
+
+
+def instantiate(ex, cls, e, st):
+    """a pysat solver class called with bootstrap_with=<CNF>"""
+    args, kwargs = ex.args_of(e, st)
+    if cls.name == "Solver":
+        used("pysat.Solver (solve sound+complete for the added clauses; get_model indexes every occurring variable)")
+        f = kwargs.get("bootstrap_with")
+        rec = st.heap[f.oid]
+        return ObjRef(alloc(st, {"kind": "Solver", "sat": rec["sat"], "men": rec["men"]}, "solver"), "Solver")
+    raise Unsupported("class " + cls.name)
 
 
 def new_circuit(ex, st, e):
